@@ -1,11 +1,15 @@
 (* C20 model: minijinja-autoreload/src/lib.rs -- AutoReloader::acquire_env, Notifier::request_reload,
-   should_reload, prepare_and_mark_reload, fast_reload, the guard -- as a labelled transition system
-   at the granularity of the reloader's lock acquisitions (the yield points of hook H3).
+   should_reload, prepare_and_mark_reload, fast_reload, restore_reload, the guard -- as a labelled
+   transition system at the granularity of the reloader's lock acquisitions (the yield points of hook
+   H3) and of the user callbacks, which run WITH THE NOTIFIER MUTEX HELD and may take arbitrarily
+   long: the freshness callback (should_reload) and the on-should-reload callback (request_reload,
+   should_reload) are states of their own ("lock held, inside callback"), during which every other
+   thread that needs the notifier mutex can only block.
 
    Any thread may perform any enabled action at any time: thread ids are arbitrary integers, the
    number of threads and of operations is unbounded.  Everything acquire_env does after taking the
    cache mutex is serialised by that mutex, so the shared state carries ONE holder automaton
-   ([phase], tagged with the owner thread) next to the notifier state.
+   ([phase], tagged with the owner thread) next to the notifier state ([flag], [nlk]).
 
    Ghost state: [reqs] = number of completed flag-sets (request_reload's first lock section /
    the fs-watcher callback); [born] of an environment = [reqs] when its creator started or,
@@ -28,6 +32,15 @@ Inductive phase :=
 | Failing (t r0 : Z)                      (* creator returned Err; flag restore pending (fixed code only) *)
 | Holding (t r0 : Z).                     (* guard handed out *)
 
+(* the notifier mutex: free between lock sections; held across a user callback *)
+Inductive nholder :=
+| NFree
+| NFresh (t : Z)                          (* t is inside the freshness callback (should_reload) *)
+| NOnCb (t : Z) (from_check : bool).      (* t is inside the on-should-reload callback, called from
+                                             should_reload (true) or from request_reload (false) *)
+Definition nlk_holder (n : nholder) : option Z :=
+  match n with NFree => None | NFresh t | NOnCb t _ => Some t end.
+
 (* static configuration.  [restore] = the flag is set again when the creator fails
    (true = the code after the fix; false = the code before it, kept for the refutation example) *)
 Record cfg := { fast : bool; fresh_cb : bool; on_cb : bool; restore : bool }.
@@ -37,88 +50,116 @@ Record st := {
   reqs : Z;               (* ghost *)
   cached : option env;    (* AutoReloader.cached_env *)
   ph : phase;
+  nlk : nholder;
   creator_calls : Z;
   clears : Z;             (* clear_templates calls (fast reload) *)
   notifies : Z            (* on_should_reload_callback invocations *)
 }.
 
 Definition init : st :=
-  {| flag := false; reqs := 0; cached := None; ph := Idle; creator_calls := 0; clears := 0; notifies := 0 |}.
+  {| flag := false; reqs := 0; cached := None; ph := Idle; nlk := NFree; creator_calls := 0; clears := 0; notifies := 0 |}.
 
 (* one step of one thread = what it does from one yield point to the next *)
 Inductive label :=
 | LReqSet (t : Z)                       (* request_reload: lock; should_reload = true *)
-| LReqNotify (t : Z)                    (* request_reload: lock; on_should_reload callback; return *)
+| LReqNotify (t : Z) (entered : bool)   (* request_reload: lock; [entered]: on-should-reload callback entered, else return *)
 | LAcqCache (t : Z)                     (* acquire_env: cached_env.lock(); is_none() *)
-| LAcqCheck (t : Z) (cb : option bool)  (* should_reload(): flag, else freshness callback (None = not polled) *)
+| LAcqCheck (t : Z)                     (* should_reload(): lock; flag; else enter the freshness callback / return *)
+| LFreshEnd (t : Z) (ans : bool)        (* the freshness callback returns *)
+| LOnCbEnd (t : Z)                      (* the on-should-reload callback returns *)
 | LAcqMark (t : Z)                      (* prepare_and_mark_reload: should_reload = false *)
 | LAcqFast (t : Z)                      (* fast_reload(): read; if set clear_templates and return the guard *)
 | LCreStart (t : Z)                     (* the creator starts *)
 | LCreEnd (t : Z) (ok : bool)           (* the creator returned; Ok: store, return the guard *)
 | LAcqRestore (t : Z)                   (* failed creator: should_reload = true; return Err *)
-| LDrop (t : Z).                        (* guard dropped *)
+| LDrop (t : Z)                         (* guard dropped *)
+| LBlocked (t : Z).                     (* t tries to take the notifier mutex while another thread is inside a callback: it sleeps *)
 
-(* what acquire_env returned during the step (for LDrop: what the guard still dereferences to) *)
-Inductive ret := RNone | RErr | REnv (e : env).
+(* what returned during the step (for LDrop: what the guard still dereferences to) *)
+Inductive ret := RNone | RErr | RReq | REnv (e : env).   (* RErr/REnv: acquire_env; RReq: request_reload *)
 Record event := { lab : label; obs : ret }.
 
-Definition set_ph (s : st) (p : phase) : st :=
-  {| flag := flag s; reqs := reqs s; cached := cached s; ph := p;
+Definition with_ph (s : st) (p : phase) : st :=
+  {| flag := flag s; reqs := reqs s; cached := cached s; ph := p; nlk := nlk s;
      creator_calls := creator_calls s; clears := clears s; notifies := notifies s |}.
-Definition set_flag (s : st) (f : bool) (p : phase) : st :=
-  {| flag := f; reqs := reqs s; cached := cached s; ph := p;
+Definition with_flag (s : st) (f : bool) : st :=
+  {| flag := f; reqs := reqs s; cached := cached s; ph := ph s; nlk := nlk s;
      creator_calls := creator_calls s; clears := clears s; notifies := notifies s |}.
+Definition with_nlk (s : st) (n : nholder) : st :=
+  {| flag := flag s; reqs := reqs s; cached := cached s; ph := ph s; nlk := n;
+     creator_calls := creator_calls s; clears := clears s; notifies := notifies s |}.
+Definition with_cached (s : st) (e : env) : st :=
+  {| flag := flag s; reqs := reqs s; cached := Some e; ph := ph s; nlk := nlk s;
+     creator_calls := creator_calls s; clears := clears s; notifies := notifies s |}.
+Definition count_request (s : st) : st :=
+  {| flag := true; reqs := reqs s + 1; cached := cached s; ph := ph s; nlk := nlk s;
+     creator_calls := creator_calls s; clears := clears s; notifies := notifies s |}.
+Definition count_notify (s : st) : st :=
+  {| flag := flag s; reqs := reqs s; cached := cached s; ph := ph s; nlk := nlk s;
+     creator_calls := creator_calls s; clears := clears s; notifies := notifies s + 1 |}.
+Definition count_creator (s : st) : st :=
+  {| flag := flag s; reqs := reqs s; cached := cached s; ph := ph s; nlk := nlk s;
+     creator_calls := creator_calls s + 1; clears := clears s; notifies := notifies s |}.
+Definition count_clear (s : st) : st :=
+  {| flag := flag s; reqs := reqs s; cached := cached s; ph := ph s; nlk := nlk s;
+     creator_calls := creator_calls s; clears := clears s + 1; notifies := notifies s |}.
 Definition b2z (b : bool) : Z := if b then 1 else 0.
+Definition ev (l : label) (o : ret) : event := {| lab := l; obs := o |}.
 
 Inductive step (c : cfg) : st -> event -> st -> Prop :=
-| S_req_set s t :
-    step c s {| lab := LReqSet t; obs := RNone |}
-         {| flag := true; reqs := reqs s + 1; cached := cached s; ph := ph s;
-            creator_calls := creator_calls s; clears := clears s; notifies := notifies s |}
-| S_req_notify s t :
-    step c s {| lab := LReqNotify t; obs := RNone |}
-         {| flag := flag s; reqs := reqs s; cached := cached s; ph := ph s;
-            creator_calls := creator_calls s; clears := clears s; notifies := notifies s + b2z (on_cb c) |}
+(* request_reload *)
+| S_req_set s t : nlk s = NFree ->
+    step c s (ev (LReqSet t) RNone) (count_request s)
+| S_req_notify_plain s t : nlk s = NFree -> on_cb c = false ->
+    step c s (ev (LReqNotify t false) RReq) s
+| S_req_notify_cb s t : nlk s = NFree -> on_cb c = true ->
+    step c s (ev (LReqNotify t true) RNone) (count_notify (with_nlk s (NOnCb t false)))
+| S_oncb_end_req s t : nlk s = NOnCb t false ->
+    step c s (ev (LOnCbEnd t) RReq) (with_nlk s NFree)
+(* acquire_env *)
 | S_lock_empty s t : ph s = Idle -> cached s = None ->
-    step c s {| lab := LAcqCache t; obs := RNone |} (set_ph s (Decided t (reqs s) WhyEmpty))
+    step c s (ev (LAcqCache t) RNone) (with_ph s (Decided t (reqs s) WhyEmpty))
 | S_lock_some s t e : ph s = Idle -> cached s = Some e ->
-    step c s {| lab := LAcqCache t; obs := RNone |} (set_ph s (Locked t (reqs s)))
-| S_check_flag s t r0 : ph s = Locked t r0 -> flag s = true ->
-    step c s {| lab := LAcqCheck t None; obs := RNone |} (set_ph s (Decided t r0 WhyFlag))
-| S_check_keep s t r0 e : ph s = Locked t r0 -> flag s = false -> fresh_cb c = false -> cached s = Some e ->
-    step c s {| lab := LAcqCheck t None; obs := REnv e |} (set_ph s (Holding t r0))
-| S_check_fresh_no s t r0 e : ph s = Locked t r0 -> flag s = false -> fresh_cb c = true -> cached s = Some e ->
-    step c s {| lab := LAcqCheck t (Some false); obs := REnv e |} (set_ph s (Holding t r0))
-| S_check_fresh_yes s t r0 : ph s = Locked t r0 -> flag s = false -> fresh_cb c = true ->
-    step c s {| lab := LAcqCheck t (Some true); obs := RNone |}
-         {| flag := flag s; reqs := reqs s; cached := cached s; ph := Decided t r0 WhyFresh;
-            creator_calls := creator_calls s; clears := clears s; notifies := notifies s + b2z (on_cb c) |}
-| S_mark_empty s t r0 w : ph s = Decided t r0 w -> cached s = None ->
-    step c s {| lab := LAcqMark t; obs := RNone |} (set_flag s false (PreCreate t r0 w))
-| S_mark_some s t r0 w e : ph s = Decided t r0 w -> cached s = Some e ->
-    step c s {| lab := LAcqMark t; obs := RNone |} (set_flag s false (Cleared t r0 w))
-| S_fast_clear s t r0 w e : ph s = Cleared t r0 w -> fast c = true -> cached s = Some e ->
-    step c s {| lab := LAcqFast t; obs := REnv {| gen := gen e; born := reqs s |} |}
-         {| flag := flag s; reqs := reqs s; cached := Some {| gen := gen e; born := reqs s |}; ph := Holding t r0;
-            creator_calls := creator_calls s; clears := clears s + 1; notifies := notifies s |}
-| S_fast_off s t r0 w : ph s = Cleared t r0 w -> fast c = false ->
-    step c s {| lab := LAcqFast t; obs := RNone |} (set_ph s (PreCreate t r0 w))
+    step c s (ev (LAcqCache t) RNone) (with_ph s (Locked t (reqs s)))
+| S_check_flag s t r0 : ph s = Locked t r0 -> nlk s = NFree -> flag s = true ->
+    step c s (ev (LAcqCheck t) RNone) (with_ph s (Decided t r0 WhyFlag))
+| S_check_keep s t r0 e : ph s = Locked t r0 -> nlk s = NFree -> flag s = false -> fresh_cb c = false -> cached s = Some e ->
+    step c s (ev (LAcqCheck t) (REnv e)) (with_ph s (Holding t r0))
+| S_check_enter s t r0 : ph s = Locked t r0 -> nlk s = NFree -> flag s = false -> fresh_cb c = true ->
+    step c s (ev (LAcqCheck t) RNone) (with_nlk s (NFresh t))
+| S_fresh_no s t r0 e : ph s = Locked t r0 -> nlk s = NFresh t -> cached s = Some e ->
+    step c s (ev (LFreshEnd t false) (REnv e)) (with_ph (with_nlk s NFree) (Holding t r0))
+| S_fresh_yes_plain s t r0 : ph s = Locked t r0 -> nlk s = NFresh t -> on_cb c = false ->
+    step c s (ev (LFreshEnd t true) RNone) (with_ph (with_nlk s NFree) (Decided t r0 WhyFresh))
+| S_fresh_yes_cb s t r0 : ph s = Locked t r0 -> nlk s = NFresh t -> on_cb c = true ->
+    step c s (ev (LFreshEnd t true) RNone) (count_notify (with_nlk s (NOnCb t true)))
+| S_oncb_end_check s t r0 : ph s = Locked t r0 -> nlk s = NOnCb t true ->
+    step c s (ev (LOnCbEnd t) RNone) (with_ph (with_nlk s NFree) (Decided t r0 WhyFresh))
+| S_mark_empty s t r0 w : ph s = Decided t r0 w -> nlk s = NFree -> cached s = None ->
+    step c s (ev (LAcqMark t) RNone) (with_ph (with_flag s false) (PreCreate t r0 w))
+| S_mark_some s t r0 w e : ph s = Decided t r0 w -> nlk s = NFree -> cached s = Some e ->
+    step c s (ev (LAcqMark t) RNone) (with_ph (with_flag s false) (Cleared t r0 w))
+| S_fast_clear s t r0 w e : ph s = Cleared t r0 w -> nlk s = NFree -> fast c = true -> cached s = Some e ->
+    step c s (ev (LAcqFast t) (REnv {| gen := gen e; born := reqs s |}))
+         (count_clear (with_ph (with_cached s {| gen := gen e; born := reqs s |}) (Holding t r0)))
+| S_fast_off s t r0 w : ph s = Cleared t r0 w -> nlk s = NFree -> fast c = false ->
+    step c s (ev (LAcqFast t) RNone) (with_ph s (PreCreate t r0 w))
 | S_cre_start s t r0 w : ph s = PreCreate t r0 w ->
-    step c s {| lab := LCreStart t; obs := RNone |}
-         {| flag := flag s; reqs := reqs s; cached := cached s; ph := Creating t r0 (reqs s) w;
-            creator_calls := creator_calls s + 1; clears := clears s; notifies := notifies s |}
+    step c s (ev (LCreStart t) RNone) (count_creator (with_ph s (Creating t r0 (reqs s) w)))
 | S_cre_ok s t r0 b w : ph s = Creating t r0 b w ->
-    step c s {| lab := LCreEnd t true; obs := REnv {| gen := creator_calls s; born := b |} |}
-         {| flag := flag s; reqs := reqs s; cached := Some {| gen := creator_calls s; born := b |}; ph := Holding t r0;
-            creator_calls := creator_calls s; clears := clears s; notifies := notifies s |}
+    step c s (ev (LCreEnd t true) (REnv {| gen := creator_calls s; born := b |}))
+         (with_ph (with_cached s {| gen := creator_calls s; born := b |}) (Holding t r0))
 | S_cre_err_fixed s t r0 b w : ph s = Creating t r0 b w -> restore c = true ->
-    step c s {| lab := LCreEnd t false; obs := RNone |} (set_ph s (Failing t r0))
+    step c s (ev (LCreEnd t false) RNone) (with_ph s (Failing t r0))
 | S_cre_err_unfixed s t r0 b w : ph s = Creating t r0 b w -> restore c = false ->
-    step c s {| lab := LCreEnd t false; obs := RErr |} (set_ph s Idle)
-| S_restore s t r0 : ph s = Failing t r0 ->
-    step c s {| lab := LAcqRestore t; obs := RErr |} (set_flag s true Idle)
+    step c s (ev (LCreEnd t false) RErr) (with_ph s Idle)
+| S_restore s t r0 : ph s = Failing t r0 -> nlk s = NFree ->
+    step c s (ev (LAcqRestore t) RErr) (with_ph (with_flag s true) Idle)
 | S_drop s t r0 e : ph s = Holding t r0 -> cached s = Some e ->
-    step c s {| lab := LDrop t; obs := REnv e |} (set_ph s Idle).
+    step c s (ev (LDrop t) (REnv e)) (with_ph s Idle)
+(* any thread that wants the notifier mutex while another one is inside a callback goes to sleep *)
+| S_blocked s t h : nlk_holder (nlk s) = Some h -> h <> t ->
+    step c s (ev (LBlocked t) RNone) s.
 
 Inductive run (c : cfg) : st -> list event -> st -> Prop :=
 | run_nil s : run c s [] s
@@ -126,76 +167,82 @@ Inductive run (c : cfg) : st -> list event -> st -> Prop :=
 
 (* ---- the same transition system as a function (this is what is extracted and fed with the
         implementation's traces); Proofs.v shows exec = step ---- *)
+Definition nfree (s : st) : bool := match nlk s with NFree => true | _ => false end.
+
 Definition exec (c : cfg) (s : st) (l : label) : option (st * ret) :=
   match l with
-  | LReqSet _ =>
-      Some ({| flag := true; reqs := reqs s + 1; cached := cached s; ph := ph s;
-               creator_calls := creator_calls s; clears := clears s; notifies := notifies s |}, RNone)
-  | LReqNotify _ =>
-      Some ({| flag := flag s; reqs := reqs s; cached := cached s; ph := ph s;
-               creator_calls := creator_calls s; clears := clears s; notifies := notifies s + b2z (on_cb c) |}, RNone)
+  | LReqSet _ => if nfree s then Some (count_request s, RNone) else None
+  | LReqNotify t entered =>
+      if nfree s then
+        if on_cb c then (if entered then Some (count_notify (with_nlk s (NOnCb t false)), RNone) else None)
+        else (if entered then None else Some (s, RReq))
+      else None
+  | LOnCbEnd t =>
+      match nlk s with
+      | NOnCb t' false => if t =? t' then Some (with_nlk s NFree, RReq) else None
+      | NOnCb t' true =>
+          match ph s with
+          | Locked t'' r0 => if (t =? t') && (t =? t'') then Some (with_ph (with_nlk s NFree) (Decided t r0 WhyFresh), RNone) else None
+          | _ => None
+          end
+      | _ => None
+      end
   | LAcqCache t =>
       match ph s with
       | Idle => match cached s with
-                | None => Some (set_ph s (Decided t (reqs s) WhyEmpty), RNone)
-                | Some _ => Some (set_ph s (Locked t (reqs s)), RNone)
+                | None => Some (with_ph s (Decided t (reqs s) WhyEmpty), RNone)
+                | Some _ => Some (with_ph s (Locked t (reqs s)), RNone)
                 end
       | _ => None
       end
-  | LAcqCheck t cb =>
+  | LAcqCheck t =>
       match ph s with
       | Locked t' r0 =>
-          if negb (t =? t') then None else
-          if flag s then
-            match cb with None => Some (set_ph s (Decided t r0 WhyFlag), RNone) | Some _ => None end
-          else if fresh_cb c then
-            match cb with
-            | None => None
-            | Some true =>
-                Some ({| flag := flag s; reqs := reqs s; cached := cached s; ph := Decided t r0 WhyFresh;
-                         creator_calls := creator_calls s; clears := clears s;
-                         notifies := notifies s + b2z (on_cb c) |}, RNone)
-            | Some false =>
-                match cached s with Some e => Some (set_ph s (Holding t r0), REnv e) | None => None end
-            end
-          else
-            match cb with
-            | None => match cached s with Some e => Some (set_ph s (Holding t r0), REnv e) | None => None end
-            | Some _ => None
-            end
+          if negb ((t =? t') && nfree s) then None else
+          if flag s then Some (with_ph s (Decided t r0 WhyFlag), RNone)
+          else if fresh_cb c then Some (with_nlk s (NFresh t), RNone)
+          else match cached s with Some e => Some (with_ph s (Holding t r0), REnv e) | None => None end
       | _ => None
+      end
+  | LFreshEnd t ans =>
+      match ph s, nlk s with
+      | Locked t' r0, NFresh t'' =>
+          if negb ((t =? t') && (t =? t'')) then None else
+          if ans then
+            if on_cb c then Some (count_notify (with_nlk s (NOnCb t true)), RNone)
+            else Some (with_ph (with_nlk s NFree) (Decided t r0 WhyFresh), RNone)
+          else match cached s with Some e => Some (with_ph (with_nlk s NFree) (Holding t r0), REnv e) | None => None end
+      | _, _ => None
       end
   | LAcqMark t =>
       match ph s with
       | Decided t' r0 w =>
-          if negb (t =? t') then None else
+          if negb ((t =? t') && nfree s) then None else
           match cached s with
-          | None => Some (set_flag s false (PreCreate t r0 w), RNone)
-          | Some _ => Some (set_flag s false (Cleared t r0 w), RNone)
+          | None => Some (with_ph (with_flag s false) (PreCreate t r0 w), RNone)
+          | Some _ => Some (with_ph (with_flag s false) (Cleared t r0 w), RNone)
           end
       | _ => None
       end
   | LAcqFast t =>
       match ph s with
       | Cleared t' r0 w =>
-          if negb (t =? t') then None else
+          if negb ((t =? t') && nfree s) then None else
           if fast c then
             match cached s with
             | Some e =>
                 let e' := {| gen := gen e; born := reqs s |} in
-                Some ({| flag := flag s; reqs := reqs s; cached := Some e'; ph := Holding t r0;
-                         creator_calls := creator_calls s; clears := clears s + 1; notifies := notifies s |}, REnv e')
+                Some (count_clear (with_ph (with_cached s e') (Holding t r0)), REnv e')
             | None => None
             end
-          else Some (set_ph s (PreCreate t r0 w), RNone)
+          else Some (with_ph s (PreCreate t r0 w), RNone)
       | _ => None
       end
   | LCreStart t =>
       match ph s with
       | PreCreate t' r0 w =>
           if negb (t =? t') then None else
-          Some ({| flag := flag s; reqs := reqs s; cached := cached s; ph := Creating t r0 (reqs s) w;
-                   creator_calls := creator_calls s + 1; clears := clears s; notifies := notifies s |}, RNone)
+          Some (count_creator (with_ph s (Creating t r0 (reqs s) w)), RNone)
       | _ => None
       end
   | LCreEnd t ok =>
@@ -204,36 +251,40 @@ Definition exec (c : cfg) (s : st) (l : label) : option (st * ret) :=
           if negb (t =? t') then None else
           if ok then
             let e := {| gen := creator_calls s; born := b |} in
-            Some ({| flag := flag s; reqs := reqs s; cached := Some e; ph := Holding t r0;
-                     creator_calls := creator_calls s; clears := clears s; notifies := notifies s |}, REnv e)
-          else if restore c then Some (set_ph s (Failing t r0), RNone)
-          else Some (set_ph s Idle, RErr)
+            Some (with_ph (with_cached s e) (Holding t r0), REnv e)
+          else if restore c then Some (with_ph s (Failing t r0), RNone)
+          else Some (with_ph s Idle, RErr)
       | _ => None
       end
   | LAcqRestore t =>
       match ph s with
-      | Failing t' r0 => if negb (t =? t') then None else Some (set_flag s true Idle, RErr)
+      | Failing t' r0 => if negb ((t =? t') && nfree s) then None else Some (with_ph (with_flag s true) Idle, RErr)
       | _ => None
       end
   | LDrop t =>
       match ph s with
       | Holding t' r0 =>
           if negb (t =? t') then None else
-          match cached s with Some e => Some (set_ph s Idle, REnv e) | None => None end
+          match cached s with Some e => Some (with_ph s Idle, REnv e) | None => None end
       | _ => None
+      end
+  | LBlocked t =>
+      match nlk_holder (nlk s) with
+      | Some h => if h =? t then None else Some (s, RNone)
+      | None => None
       end
   end.
 
 Definition env_eqb (a b : env) : bool := (gen a =? gen b) && (born a =? born b).
 Definition ret_eqb (a b : ret) : bool :=
   match a, b with
-  | RNone, RNone | RErr, RErr => true
+  | RNone, RNone | RErr, RErr | RReq, RReq => true
   | REnv x, REnv y => env_eqb x y
   | _, _ => false
   end.
 
 (* replay of an observed trace: [inl s] = accepted, final state s; [inr (i, r)] = event number i is not a
-   step of the model (r = what the model hands out at that step, RNone if the label itself is not enabled) *)
+   step of the model (r = what the model returns at that step, RNone if the label itself is not enabled) *)
 Fixpoint replay (c : cfg) (s : st) (i : Z) (tr : list event) : st + (Z * ret) :=
   match tr with
   | [] => inl s
